@@ -429,7 +429,32 @@ class Tree:
     def callee(self, call: ast.Call, scope: FuncInfo | None = None) -> str | None:
         mod = call._module  # type: ignore[attr-defined]
         scope = scope or self.func_of(call)
-        return self.resolve(mod, call.func, scope)
+        target = self.resolve(mod, call.func, scope)
+        if target is None and scope is not None and isinstance(call.func, ast.Attribute) and isinstance(call.func.value, ast.Name):
+            # `x.m(...)` where the local x is bound exactly once in this function, to `Cls(...)` of a class of the tree:
+            # the method of that class (an object of a subclass cannot be what the constructor call returns)
+            target = self._method_of_local(mod, scope, call.func.value.id, call.func.attr)
+        return target
+
+    def _method_of_local(self, mod: Module, scope: FuncInfo, name: str, attr: str) -> str | None:
+        cache = self.__dict__.setdefault("_local_classes", {})
+        key = (scope.qual, name)
+        if key not in cache:
+            stores = [n for n in walk_function(scope.node, nested=False) if isinstance(n, ast.Name) and n.id == name and isinstance(n.ctx, (ast.Store, ast.Del))]
+            cls = None
+            if len(stores) == 1 and name not in scope.params:
+                st = getattr(stores[0], "_parent", None)
+                value = st.value if isinstance(st, ast.Assign) and len(st.targets) == 1 and st.targets[0] is stores[0] else st.value if isinstance(st, ast.AnnAssign) and st.target is stores[0] else None
+                if isinstance(value, ast.Call):
+                    q = self.resolve(mod, value.func, scope)
+                    if q in self.classes and not any(d in {"dataclasses.dataclass"} and False for d, _ in self.classes[q].decorators):
+                        cls = self.classes[q]
+            cache[key] = cls
+        cls = cache[key]
+        if cls is None:
+            return None
+        m = self.lookup_method(cls, attr)
+        return m.qual if m is not None else None
 
     # --------------------------------------------------------------- walking
     def calls_in(self, fn: FuncInfo, nested: bool = True) -> Iterator[tuple[ast.Call, str | None]]:
